@@ -90,14 +90,38 @@ Theorem C08_error_branch : forall d registered produces rt cached specs head mar
 Proof. exact respond_error_branch. Qed.
 Print Assumptions C08_error_branch.
 
-(* a refused basic-auth attempt carries the challenge naming the configured realm (API when none) *)
+(* a failed basic-auth attempt - no credentials, refused credentials, an Authorization header that yields no
+   credentials, an Authorization header of another scheme - carries the challenge naming the configured realm
+   (API when none); the error shown is the authentication function's own when it was consulted, else 401 *)
 Theorem C08_basic_challenge : forall d registered rt specs head realm attempt code result,
   attempt <> GoodCreds ->
   exists r, serve d registered rt specs head (Basic realm attempt code) result = Responded r /\
             o_www r = Some (challenge (effective_realm realm)) /\
-            o_error r = Some (match attempt with NoCreds => 401 | _ => code end) /\ o_producer r = None.
+            o_error r = Some (match attempt with BadCreds => code | _ => 401 end) /\ o_producer r = None.
 Proof. exact serve_basic_refused. Qed.
 Print Assumptions C08_basic_challenge.
+
+(* the realm marker the authenticator leaves: the effective realm after every failed attempt, nothing otherwise *)
+Theorem C08_failed_attempt_marker : forall realm a,
+  a <> GoodCreds -> basic_marker realm a = effective_realm realm /\ basic_marker realm a <> [].
+Proof. exact failed_attempt_marker. Qed.
+Print Assumptions C08_failed_attempt_marker.
+
+(* an Authorization header without usable basic credentials is answered exactly as a missing one *)
+Theorem C08_unusable_authorization_as_no_credentials : forall d registered rt specs head realm attempt code result,
+  attempt_has_credentials attempt = false ->
+  serve d registered rt specs head (Basic realm attempt code) result =
+  serve d registered rt specs head (Basic realm NoCreds code) result.
+Proof. exact serve_unusable_authorization_as_no_credentials. Qed.
+Print Assumptions C08_unusable_authorization_as_no_credentials.
+
+(* an error answered by Respond after a failed attempt carries the challenge *)
+Theorem C08_challenge_after_failed_attempt : forall d registered produces rt cached specs head realm a code,
+  a <> GoodCreds ->
+  exists r, respond d registered produces rt cached specs head (model_marker (Some (realm, a))) (DError code) = Responded r /\
+            o_www r = Some (challenge (effective_realm realm)) /\ o_error r = Some code /\ o_producer r = None.
+Proof. exact respond_after_failed_attempt. Qed.
+Print Assumptions C08_challenge_after_failed_attempt.
 
 Theorem C08_challenge_text : forall realm, Forall (fun c => c <> DQ /\ c <> BSL) realm ->
   challenge realm = BASIC_REALM ++ DQ :: realm ++ [DQ].
@@ -117,6 +141,14 @@ Theorem C08_respond_meets_property : forall d registered produces rt cached spec
               (obs_of (respond d registered produces rt cached specs head marker dt) tag) = true.
 Proof. exact direct_meets_property. Qed.
 Print Assumptions C08_respond_meets_property.
+
+(* ... Respond called after a basic authenticator examined the request (the check's direct cases) ... *)
+Theorem C08_respond_after_authenticator_meets_property : forall d registered produces rt cached specs head auth dt tag,
+  Forall spec_ok specs -> cached_ok cached = true ->
+  direct_auth_prop d registered produces rt cached specs head auth dt tag
+              (obs_of (respond d registered produces rt cached specs head (model_marker auth) dt) tag) = true.
+Proof. exact direct_auth_meets_property. Qed.
+Print Assumptions C08_respond_after_authenticator_meets_property.
 
 (* ... and a request through the pipeline of an operation (security, validation, handler), for every
    route order of the produces list and every Accept header *)
